@@ -40,6 +40,13 @@ func (rt *runtime) cmplCallNodeFunction(function *object, stash *fnStash, node *
 		value := Value{}
 		if index < len(argumentList) {
 			value = argumentList[index]
+			// Of several formal parameters with the same name only the last one that
+			// received an argument is tied to its arguments element (10.6 step 11)
+			for earlier := range index {
+				if indexOfParameterName[earlier] == name {
+					indexOfParameterName[earlier] = ""
+				}
+			}
 			indexOfParameterName[index] = name
 		}
 		// strict = false
@@ -53,7 +60,7 @@ func (rt *runtime) cmplCallNodeFunction(function *object, stash *fnStash, node *
 		// strict = false
 		rt.scope.lexical.setValue("arguments", objectValue(arguments), false)
 		for index := range argumentList {
-			if index < len(node.parameterList) {
+			if index < len(node.parameterList) && indexOfParameterName[index] != "" {
 				continue
 			}
 			indexAsString := strconv.FormatInt(int64(index), 10)
